@@ -272,7 +272,9 @@ def run(ctx, rep):
             nw += 1
             owner = g.path.split("::{")[0].split("::")[-1]
             okw = g.path.startswith("bytecode::instruction::implementations::") and n_.split("::")[-1] in WRITERS.get(owner, ())
-            rep.ob("C08.view-writers", "%s writes through a field / element view with %s" % (mir.short(g.path), n_), "ok" if okw else "violated",
+            # (a helper outside the instruction handlers is not judged here: who calls it decides)
+            st_w = "ok" if okw else ("violated" if g.path.startswith("bytecode::instruction::implementations::") else "undecided")
+            rep.ob("C08.view-writers", "%s writes through a field / element view with %s" % (mir.short(g.path), n_), st_w,
                    "" if okw else "only the assignment instructions write through a view: `-obj.f` (or whatever this handler evaluates) stores its result into the field it read, "
                    "visible through every alias of the object", c.span, fn=g.path, key="C08.view-writers|%s|%s" % (mir.short(g.path), n_))
     rep.floor("C08.view-writers write-through sites", nw, 2)
